@@ -68,9 +68,18 @@ def tk1(m, run):
     st = m.cls('abstract', 'Surface').methods.get('tessellate')
     calls = [c for c in walk_no_nested(st.node) if isinstance(c, ast.Call) and isinstance(c.func, ast.Attribute) and c.func.attr == 'tessellate'
              and '_tsl_component' in norm(c.func.value)]
-    if len(calls) != 1:
-        raise AnalysisError('abstract.Surface.tessellate: call of the tessellation component not found')
-    passed = {k.arg for k in calls[0].keywords if k.arg}
+    # the keywords the component receives: from the recorded call of the interpreted method (spelling-independent); the call site read
+    # from the source is the fallback
+    passed = None
+    try:
+        from .. import skel_drivers as _sdk1
+        passed = _sdk1.tessellate_keywords(m)
+    except Exception:
+        passed = None
+    if passed is None:
+        if len(calls) != 1:
+            raise AnalysisError('abstract.Surface.tessellate: call of the tessellation component not found')
+        passed = {k.arg for k in calls[0].keywords if k.arg}
     n = 0
     for ck in sorted(k for k in m.classes if k[0] == 'tessellate' and k[1] != 'AbstractTessellate'):
         ci = m.classes[ck]
@@ -193,7 +202,17 @@ def _triangle_mesh_syntactic(m, run, tm):
 
 def _rest(m, run):
     run.floor('LY1.prealloc-stride', 9, 'source point, 4 + 4 quad corners')
-    tv1(m, run)
+    # Surface.tessellate is decided against a recording tessellation component (TV3); the rules that read its call and its re-evaluation
+    # loop corroborate (TV2, the domain of the stored parameters, is a separate clause and stays with its rule)
+    from .. import skel_drivers as _sdt3
+    n_tv = len(run.obs)
+    try:
+        _sdt3.tv3(m, run)
+    except AnalysisError as ex:
+        run.error(str(ex))
+    tv_ok = len(run.obs) > n_tv and all(o.ok for o in run.obs[n_tv:])
+    with run.corroborating(tv_ok, 'TV3', rules=('TV1.tessellate-inputs', 'TV1.vertex-on-surface', 'TV1.re-evaluation-on-every-path'), only=lambda o: o.rule.startswith('TV1')):
+        tv1(m, run)
     from .. import skel_drivers as _sd
     n0 = len(run.obs)
     _sd.mx2(m, run)
